@@ -134,6 +134,12 @@ def gen_history(seed, i, valid, tier):
             ops.append(["damage", rng.below(len(slots)), rng.choice(["empty", "cut", "binary", "foreign", "crlf", "bom"]), rng.range(5, 150)])
         else:
             ops.append(["run"])
+        if cfg["one_process"] and rng.coin(120):
+            # a SECOND Compile value in the same process: file mode on one of the grammars, other settings, a destination
+            # of its own (what one Compile value leaves behind in the process must not reach the other)
+            alt = rng.choice([["--ctx", "crate::Other"], ["--derives", "Debug,Clone"], ["--derives", "Debug,Clone,PartialEq"], ["--derives", "Debug,Clone", "--ctx", "crate::Ctx"], []])
+            if alt != settings_of(cfg):
+                ops.append(["run2", rng.below(len(slots)), alt])
     ops.append(["run"])
     cfg["ops"] = ops
     return cfg
@@ -360,6 +366,16 @@ def execute_history(cfg, d, valid, scratch, stats=None):
                 events.append(("change", "damage:%s" % kindd))
             else:
                 events.append(("nochange", "damage:none"))
+        elif op[0] == "run2":
+            sl = slots[op[1]]
+            if not one_process or sl.kind != "valid":
+                continue
+            lab = "x%d" % len([1 for k, _ in events if k == "run2"])
+            dest2 = os.path.join(d, "outdir", "second_%s.rs" % lab)
+            args2 = ["--file", os.path.join(d, sl.rel), "--dest", dest2, "--prefix", prefix] + list(op[2]) + (["--format"] if fmt else [])
+            script.append("RUN\t%s\t%s" % (lab, "\t".join(a.replace("\n", "\\n") for a in args2)))
+            script.append("SNAP\t%s_post\t%s" % (lab, dest2))
+            events.append(("run2", {"opi": opi, "label": lab, "text": sl.text, "prefix": prefix, "settings": list(op[2])}))
         elif op[0] == "run":
             if cfg["mode"] == "file" and slots[0].kind == "absent":
                 continue
@@ -421,6 +437,15 @@ def execute_history(cfg, d, valid, scratch, stats=None):
             if f[0] == "RESULT":
                 results[f[1]] = (f[2], (f[3] if len(f) > 3 else ""))
         for kind, rec in events:
+            if kind == "run2":
+                lab = rec["label"]
+                if lab in results and os.path.exists(os.path.join(snapdir, "%s_post.0.mt" % lab)):
+                    rec["marker"] = results[lab][0]
+                    rec["after"] = load_snap(snapdir, lab + "_post", 0)
+                else:
+                    rec["marker"] = "crash"
+                    rec["crash_detail"] = "one-process history died (%s) before the second Compile value finished: %s" % (c.status_word(), c.err[-300:].decode(errors="replace"))
+                continue
             if kind != "run":
                 continue
             lab = rec["label"]
@@ -446,6 +471,19 @@ def execute_history(cfg, d, valid, scratch, stats=None):
             if kind == "change":
                 changed_since_ok = True
             trace.append(rec)
+            continue
+        if kind == "run2":
+            trace.append("run2:" + rec["marker"])
+            exp2 = scratch.get(rec["text"], rec["prefix"], fmt, cfg["entropy"], rec["settings"])
+            base = {"op": rec["opi"], "slot": None, "prefix": rec["prefix"], "changed_since_last_ok": True}
+            if rec["marker"] not in ("Ok", "Err"):
+                viol.append(dict(base, **{"class": "crash", "detail": rec.get("crash_detail", "")}))
+            elif rec["marker"] == "Ok" and exp2 is None:
+                viol.append(dict(base, **{"class": "failing-run-returned-ok", "detail": "second Compile value (%s): invalid under its settings but run returned Ok" % " ".join(rec["settings"])}))
+            elif rec["marker"] == "Ok" and (rec["after"] is None or rec["after"][0] != exp2):
+                viol.append(dict(base, **{"class": "wrong-after-ok", "detail": "second Compile value in the process (%s): run returned Ok but its destination differs from compile-from-scratch with its settings" % " ".join(rec["settings"])}))
+            elif rec["marker"] == "Err" and exp2 is not None:
+                viol.append(dict(base, **{"class": "valid-run-returned-err", "detail": "second Compile value (%s): valid grammar but run returned Err" % " ".join(rec["settings"])}))
             continue
         kinds, texts, rprefix, before, after = rec["kinds"], rec["texts"], rec["prefix"], rec["before"], rec["after"]
         in_scope = [s for s in range(len(kinds)) if kinds[s] != "absent" and not (cfg["mode"] == "dir" and kinds[s] == "removed")]
@@ -622,6 +660,7 @@ def run(tier, seed, replay_path=None):
             "histories_with_successful_run": with_ok,
             "one_process_histories": sum(1 for cfg, _ in results if cfg.get("one_process")),
             "symlinked_destination_histories": sum(1 for cfg, _ in results if cfg.get("dest_symlink")),
+            "second_compile_value_runs": sum(n for t, n in op_counts.items() if isinstance(t, str) and t.startswith("run2:")),
             "operation_counts": op_counts,
             "violation_classes_seen": classes,
             "faults_fired": {"EIO_on_grammar_open": stats["eio_fired"],
